@@ -47,6 +47,10 @@ pub struct AiBlock {
     /// put a block WITHOUT check-ai (a plain named block) in front of this one in its file
     #[serde(default)]
     pub plain_before: bool,
+    /// same condition, content, pattern and reply as the previous block (when both sit in the same kind of
+    /// file): two blocks that differ only in where they are — each must still get its own request
+    #[serde(default)]
+    pub twin: bool,
 }
 
 #[derive(Clone, Debug, Serialize, Deserialize, Hash, PartialEq, Eq)]
@@ -120,9 +124,10 @@ fn lay_out(c: &AiCase) -> Vec<Laid> {
         let mut blocks = vec![];
         for &i in &idx {
             let b = &c.blocks[i];
+            let src = &c.blocks[owner(c, i)];
             let cond = condition_of(c, i);
             let mut attrs = format!(" name=\"ai{i}\" check-ai={}", quote_attr(&cond));
-            if let Some(p) = b.pattern {
+            if let Some(p) = src.pattern {
                 attrs.push_str(&format!(" check-ai-pattern={}", quote_attr(models::KEY_PATS[p as usize % models::KEY_PATS.len()].re)));
             }
             if b.warning {
@@ -139,7 +144,7 @@ fn lay_out(c: &AiCase) -> Vec<Laid> {
             text.push_str(&format!("{open}{tag}{close}\n"));
             line += 1 + tag_lines;
             let mut content = String::from("\n");
-            for l in &b.lines {
+            for l in &src.lines {
                 let t = format!("{cl}{l}\n");
                 text.push_str(&t);
                 content.push_str(&t);
@@ -155,8 +160,18 @@ fn lay_out(c: &AiCase) -> Vec<Laid> {
     out
 }
 
-/// Conditions are made unique per block (the request -> block mapping goes through them).
+/// The block whose condition / content / pattern / reply block i carries (itself unless it is a twin).
+fn owner(c: &AiCase, i: usize) -> usize {
+    let mut k = i;
+    while k > 0 && c.blocks[k].twin && (c.blocks[k].file % 3 == 2) == (c.blocks[k - 1].file % 3 == 2) {
+        k -= 1;
+    }
+    k
+}
+
+/// Conditions are made unique per block or group of twins (the request -> block mapping goes through them).
 fn condition_of(c: &AiCase, i: usize) -> String {
+    let i = owner(c, i);
     let b = &c.blocks[i];
     // the third file is the JavaScript one: its block comments can hold a two-line attribute value but no `*/`
     let js = b.file % 3 == 2;
@@ -184,7 +199,10 @@ pub fn check(c: &AiCase, probe: &Probe) -> Verdict {
     let laid = lay_out(c);
     let fault_kind = c.fault.map(|(k, _)| FAULTS[k as usize % FAULTS.len()]);
     let fault_at = c.fault.map(|(_, at)| at as usize % c.blocks.len()).unwrap_or(0);
-    let replies: Vec<String> = c.blocks.iter().map(|b| REPLIES[b.reply as usize % REPLIES.len()].to_string()).collect();
+    let replies: Vec<String> = (0..c.blocks.len()).map(|i| REPLIES[c.blocks[owner(c, i)].reply as usize % REPLIES.len()].to_string()).collect();
+    if (0..c.blocks.len()).any(|i| owner(c, i) != i) {
+        probe.class("twin blocks (same condition and content)");
+    }
     let conds: Vec<String> = (0..c.blocks.len()).map(|i| condition_of(c, i)).collect();
     let plan = {
         let conds = conds.clone();
@@ -277,13 +295,14 @@ pub fn check(c: &AiCase, probe: &Probe) -> Verdict {
     }
     for l in &laid {
         for (i, _, _, _, raw) in &l.blocks {
-            let want_content = expected_content(&c.blocks[*i], raw);
+            let want_content = expected_content(&c.blocks[owner(c, *i)], raw);
+            let group = (0..c.blocks.len()).filter(|k| owner(c, *k) == owner(c, *i)).count();
             // (only "carries the condition and the content verbatim" is required: the wording around them is free)
             let matching: Vec<&Request> = seen.iter().filter(|r| r.user_message().is_some_and(|m| m.contains(&conds[*i]))).collect();
-            if matching.len() != 1 {
-                return Verdict::Fail(show(&format!("{} requests carry the condition of block ai{i} verbatim (expected 1): {:?}", matching.len(), conds[*i]), &out));
+            if matching.len() != group {
+                return Verdict::Fail(show(&format!("{} requests carry the condition of block ai{i} verbatim (expected {group}: one per block with that condition): {:?}", matching.len(), conds[*i]), &out));
             }
-            let r = matching[0];
+            for r in matching {
             if r.method != "POST" || r.path != "/v1/chat/completions" {
                 return Verdict::Fail(show(&format!("request for ai{i} is {} {}", r.method, r.path), &out));
             }
@@ -311,6 +330,7 @@ pub fn check(c: &AiCase, probe: &Probe) -> Verdict {
             };
             if !carried {
                 return Verdict::Fail(show(&format!("request for ai{i} does not carry the block's content verbatim: expected the message to carry {want_content:?} after the condition, message is {um:?}"), &out));
+            }
             }
         }
     }
@@ -361,10 +381,10 @@ pub fn case_strategy() -> BoxedStrategy<AiCase> {
         1 => Just("ends with ideographic space\u{3000}".to_string()),
         1 => Just("ends with nbsp\u{a0}".to_string()),
     ];
-    let block = (text.clone(), proptest::collection::vec(text, 0..5), proptest::option::weighted(0.3, 0u8..5), 0u8..16, proptest::bool::weighted(0.2), 0u8..3, proptest::bool::weighted(0.15), proptest::bool::weighted(0.25)).prop_map(
-        |(condition, lines, pattern, reply, warning, file, multiline_condition, plain_before)| {
+    let block = (text.clone(), proptest::collection::vec(text, 0..5), proptest::option::weighted(0.3, 0u8..5), 0u8..16, proptest::bool::weighted(0.2), 0u8..3, proptest::bool::weighted(0.15), proptest::bool::weighted(0.25), proptest::bool::weighted(0.2)).prop_map(
+        |(condition, lines, pattern, reply, warning, file, multiline_condition, plain_before, twin)| {
             let condition = if condition.trim().is_empty() { "must hold".to_string() } else { condition.replace('"', "'") };
-            AiBlock { condition, lines: lines.into_iter().map(|l| l.replace("<block", "<blok").replace("</block", "</blok")).collect(), pattern, reply, warning, file, multiline_condition, plain_before }
+            AiBlock { condition, lines: lines.into_iter().map(|l| l.replace("<block", "<blok").replace("</block", "</blok")).collect(), pattern, reply, warning, file, multiline_condition, plain_before, twin }
         },
     );
     (
@@ -379,7 +399,7 @@ pub fn case_strategy() -> BoxedStrategy<AiCase> {
 }
 
 pub fn run(run: &mut Run) {
-    run.rule = "random: 1..8 check-ai blocks spread over up to 3 files (Python `#` comments, or a JavaScript block comment with the condition spread over two lines), conditions and contents over printable ASCII incl. quotes, backslashes, braces, escapes, plus Unicode/NBSP/emoji, optional check-ai-pattern from the key-pattern family, plain blocks without check-ai in front of 25% of them, severity warning in 20%, scan or new-file diff mode, two keys and two model names; in half of the cases the OpenAI SDK's own OPENAI_API_KEY / OPENAI_BASE_URL / OPENAI_ORG_ID variables are set to foreign values; reply per block from 16 texts (OK, ok, Ok., OK., oK, ` OK`, `OK `, OKAY, OK.., multi-line, quotes/backslashes/tab, Unicode, empty); in 45% one fault from 14 kinds (no key, empty key, connection refused, 400/401 JSON, 404/400 plain, 200 invalid JSON, 200 without choices, empty choices, null content, closed mid-body, closed at once, empty body) injected on the k-th arriving request. A recording fake endpoint is the observer. Non-trivial = a fault case, or >= 2 blocks with content that JSON must escape.".into();
+    run.rule = "random: 1..8 check-ai blocks spread over up to 3 files (Python `#` comments, or a JavaScript block comment with the condition spread over two lines), conditions and contents over printable ASCII incl. quotes, backslashes, braces, escapes, plus Unicode/NBSP/emoji, optional check-ai-pattern from the key-pattern family, plain blocks without check-ai in front of 25% of them, 20% twins of the previous block (same condition, content, pattern and reply: one request each all the same), severity warning in 20%, scan or new-file diff mode, two keys and two model names; in half of the cases the OpenAI SDK's own OPENAI_API_KEY / OPENAI_BASE_URL / OPENAI_ORG_ID variables are set to foreign values; reply per block from 16 texts (OK, ok, Ok., OK., oK, ` OK`, `OK `, OKAY, OK.., multi-line, quotes/backslashes/tab, Unicode, empty); in 45% one fault from 14 kinds (no key, empty key, connection refused, 400/401 JSON, 404/400 plain, 200 invalid JSON, 200 without choices, empty choices, null content, closed mid-body, closed at once, empty body) injected on the k-th arriving request. A recording fake endpoint is the observer. Non-trivial = a fault case, or >= 2 blocks with content that JSON must escape.".into();
     run.assumptions = vec![
         "429 and 5xx are not injected: the client library retries them with back-off for minutes and the statement does not list them".into(),
         "which block the k-th arriving request belongs to is not controlled".into(),
